@@ -158,11 +158,14 @@ def stateWritesOk (t : List (String × List String)) : Bool :=
 `MRIModelEngine.evaluate` and, through it, `Engine.validation_loop`; the callers of `predict` and
 `write_output_to_h5` in `direct/inference.py`; and every call site of the three in the package -/
 def expectedCallerFacts : List String :=
-  ["evaluate: for (_, output) in enumerate(self.reconstruct_volumes(data_loader, loss_fns=loss_fns, add_target=True, crop=self.cfg.validation.crop))",
+  ["reconstruct_volumes: early exits in the loop over the batches: none",
+   "evaluate: for (_, output) in enumerate(self.reconstruct_volumes(data_loader, loss_fns=loss_fns, add_target=True, crop=self.cfg.validation.crop))",
+   "evaluate: early exits in the loop over the volumes: none",
    "evaluate: (volume, target, volume_loss_dict, filename)=output",
    "evaluate: val_volume_metrics[filename.name]=curr_metrics",
    "evaluate: val_losses.append(volume_loss_dict)",
    "validation_loop: for curr_validation_dataset in validation_datasets",
+   "validation_loop: early exits in the loop over the datasets: none",
    "validation_loop: curr_batch_sampler=self.build_batch_sampler(curr_validation_dataset, batch_size=self.cfg.validation.batch_size, sampler_type='sequential', limit_number_of_volumes=None)",
    "validation_loop: curr_data_loader=self.build_loader(curr_validation_dataset, batch_sampler=curr_batch_sampler, num_workers=num_workers)",
    "validation_loop: (curr_loss_dict, curr_metrics_per_case, visualize_slices, visualize_target)=self.evaluate(curr_data_loader, loss_fns)",
